@@ -870,6 +870,13 @@ pub static ENTRIES: &[Entry] = &[
     Entry { name: "http.r.get_content_response", traits: h::T_REQ, f: h::r_get_content_response },
     Entry { name: "http.r.fed_media_content", traits: h::T_REQ, f: h::r_fed_media_content },
     Entry { name: "http.r.fed_media_thumbnail", traits: h::T_REQ, f: h::r_fed_media_thumbnail },
+    Entry { name: "http.r.store_invitation", traits: h::T_REQ, f: h::r_store_invitation_response },
+    Entry { name: "http.r.lookup_3pid", traits: h::T_REQ, f: h::r_lookup_3pid_response },
+    Entry { name: "http.r.get_missing_events", traits: h::T_REQ, f: h::r_get_missing_events_response },
+    Entry { name: "http.r.send_transaction", traits: h::T_REQ, f: h::r_send_transaction_response },
+    Entry { name: "http.r.create_join", traits: h::T_REQ, f: h::r_create_join_response },
+    Entry { name: "http.r.get_pushrules", traits: h::T_REQ, f: h::r_get_pushrules_response },
+    Entry { name: "http.r.get_state", traits: h::T_REQ, f: h::r_get_state_response },
     Entry { name: "stateres.auth_types", traits: T_JSON | T_BYTES, f: sr::auth_types },
     Entry { name: "stateres.auth_check", traits: T_JSON | T_BYTES, f: sr::auth_check_all },
     Entry { name: "stateres.resolve", traits: T_JSON | T_BYTES, f: sr::resolve_sets },
